@@ -341,12 +341,6 @@ Definition res_ok (p : ptr result_CertRevocationResult) : bool :=
   | Some r => ((CertRevocationResult_Result r =? 1) || (CertRevocationResult_Result r =? 2))%Z
   | None => false
   end.
-Definition servers_nonnil (p : ptr result_CertRevocationResult) : bool :=
-  match ptr_val p with
-  | Some r => forallb (fun s => is_some (ptr_val s)) (CertRevocationResult_ServerResults r)
-  | None => true
-  end.
-
 Lemma check_loop l : forall i,
   gen_verifier_checkRevocationResults_loop1 l i = None <-> forallb res_nonnil l = true.
 Proof.
@@ -366,15 +360,13 @@ Proof.
   - split; [discriminate|]. intros [L _]. exfalso. apply N. now rewrite L.
 Qed.
 
-Lemma servers_loop K r l :
-  gen_verifier_revocationFinalResult_loop2 K r l
-  = if forallb (fun p => is_some (ptr_val p)) l then K tt else None.
+(* the inner loop over the server results only logs; since fix a146158 it skips nil entries *)
+Lemma servers_loop K r l : gen_verifier_revocationFinalResult_loop2 K r l = K tt.
 Proof.
   induction l as [|p l IH]; [reflexivity|].
-  cbn [gen_verifier_revocationFinalResult_loop2 forallb].
-  destruct (ptr_val p) as [sv|]; cbn [is_some andb]; [|reflexivity].
-  destruct (negb (is_none (ServerResult_Error sv))); [|exact IH].
-  destruct ((CertRevocationResult_RevocationMethod r =? 3)%Z && (ServerResult_RevocationMethod sv =? 1)%Z); exact IH.
+  cbn [gen_verifier_revocationFinalResult_loop2]. cbv zeta. rewrite ?IH.
+  destruct (ptr_val p) as [sv|]; cbn [obind]; [|reflexivity].
+  repeat match goal with |- context [if ?c then _ else _] => destruct c end; reflexivity.
 Qed.
 
 Fixpoint count_ok (ps : list (ptr result_CertRevocationResult)) : Z :=
@@ -403,30 +395,30 @@ Proof. induction ps as [|p ps IH]; [reflexivity|]. cbn [rev count_ok]. rewrite c
 Lemma final_loop results (chain : list C) : forall idxs ps cs fin nok prob rf rs,
   Forall2 (fun i p => list_get results i = Some p) idxs ps ->
   Forall2 (fun i c => list_get chain i = Some c) idxs cs ->
-  forallb res_nonnil ps = true -> forallb servers_nonnil ps = true ->
+  forallb res_nonnil ps = true ->
   fin <> 1%Z ->
   exists z s, gen_verifier_revocationFinalResult_loop1 C subjs results chain idxs fin nok prob rf rs = Some (z, s)
               /\ (z = 1%Z <-> (nok + count_ok ps)%Z = list_len results).
 Proof.
-  induction idxs as [|i idxs IH]; intros ps cs fin nok prob rf rs HP HC NN SN F.
+  induction idxs as [|i idxs IH]; intros ps cs fin nok prob rf rs HP HC NN F.
   - inversion HP; subst. cbn [gen_verifier_revocationFinalResult_loop1 count_ok].
     destruct rf; destruct (Z.eqb_spec nok (list_len results)) as [E|E];
       eexists; eexists; (split; [reflexivity|]); split; intros; try lia; try congruence.
   - inversion HP as [|? p ? ps' Hp HP']; subst. inversion HC as [|? c ? cs' Hc HC']; subst.
-    cbn [forallb] in NN, SN. apply andb_true_iff in NN, SN. destruct NN as [N1 NN], SN as [S1 SN].
+    cbn [forallb] in NN. apply andb_true_iff in NN. destruct NN as [N1 NN].
     cbn [gen_verifier_revocationFinalResult_loop1]. rewrite Hc, Hp.
-    unfold res_nonnil in N1. unfold servers_nonnil in S1. cbn [count_ok]. unfold res_ok at 1.
+    unfold res_nonnil in N1. cbn [count_ok]. unfold res_ok at 1.
     destruct (ptr_val p) as [r|]; [|discriminate].
-    rewrite servers_loop, S1.
+    rewrite servers_loop.
     destruct ((CertRevocationResult_Result r =? 1)%Z || (CertRevocationResult_Result r =? 2)%Z) eqn:OK.
-    + destruct (IH ps' cs' fin (nok + 1)%Z prob rf rs HP' HC' NN SN F) as (z & s & E & I).
+    + destruct (IH ps' cs' fin (nok + 1)%Z prob rf rs HP' HC' NN F) as (z & s & E & I).
       exists z, s. split; [exact E|]. rewrite I. lia.
     + assert (F' : CertRevocationResult_Result r <> 1%Z).
       { apply orb_false_iff in OK. destruct OK as [O _]. now apply Z.eqb_neq. }
       destruct (CertRevocationResult_Result r =? 3)%Z.
-      * destruct (IH ps' cs' (CertRevocationResult_Result r) nok (subjs c) true (subjs c) HP' HC' NN SN F') as (z & s & E & I).
+      * destruct (IH ps' cs' (CertRevocationResult_Result r) nok (subjs c) true (subjs c) HP' HC' NN F') as (z & s & E & I).
         exists z, s. split; [exact E|]. rewrite I. lia.
-      * destruct (IH ps' cs' (CertRevocationResult_Result r) nok (subjs c) rf rs HP' HC' NN SN F') as (z & s & E & I).
+      * destruct (IH ps' cs' (CertRevocationResult_Result r) nok (subjs c) rf rs HP' HC' NN F') as (z & s & E & I).
         exists z, s. split; [exact E|]. rewrite I. lia.
 Qed.
 
@@ -451,32 +443,44 @@ Proof.
   rewrite andb_true_r. apply andb_comm.
 Qed.
 
-(* after checkRevocationResults passed (and no nil server result, on which the Go code panics):
-   revocationFinalResult returns ResultOK exactly when every certificate is OK or non-revokable *)
+(* after checkRevocationResults passed: revocationFinalResult is total and returns ResultOK
+   exactly when every certificate is OK or non-revokable *)
 Lemma gen_revocationFinalResult_ok_iff results (chain : list C) :
   List.length results = List.length chain -> forallb res_nonnil results = true ->
-  forallb servers_nonnil results = true ->
   exists z s, gen_verifier_revocationFinalResult C subjs results chain = Some (z, s)
               /\ (z = 1%Z <-> forallb res_ok results = true).
 Proof.
-  intros L NN SN. unfold gen_verifier_revocationFinalResult, list_len. rewrite zrange_down_zero.
+  intros L NN. unfold gen_verifier_revocationFinalResult, list_len. cbv zeta. rewrite zrange_down_zero.
   pose proof (forall2_rev _ _ _ (index_list [] results)) as HP. cbn [app List.length] in HP.
   pose proof (forall2_rev _ _ _ (index_list [] chain)) as HC. cbn [app List.length] in HC. rewrite <- L in HC.
   destruct (final_loop results chain _ _ _ 0%Z 0%Z "" false "" HP HC) as (z & s & E & I).
-  - now rewrite forallb_rev.
   - now rewrite forallb_rev.
   - discriminate.
   - exists z, s. split; [exact E|]. rewrite I, count_ok_rev, Z.add_0_l. apply count_ok_all.
 Qed.
 
-(* a nil server result makes the Go code panic (nil pointer dereference at verifier.go:888) *)
-Lemma gen_revocationFinalResult_total results (chain : list C) :
-  List.length results = List.length chain -> forallb res_nonnil results = true ->
-  forallb servers_nonnil results = true ->
-  gen_verifier_revocationFinalResult C subjs results chain <> None.
+(* both together: "the native revocation validation passes" for an answer (results, nil) of the
+   validator *)
+Definition rev_answer_ok (results : list (ptr result_CertRevocationResult)) (chain : list C) : Prop :=
+  List.length results = List.length chain /\ forallb res_ok results = true.
+
+Lemma gen_revocation_passes_iff results (chain : list C) :
+  (gen_verifier_checkRevocationResults C results chain = None
+   /\ exists s, gen_verifier_revocationFinalResult C subjs results chain = Some (1%Z, s))
+  <-> rev_answer_ok results chain.
 Proof.
-  intros L NN SN. destruct (gen_revocationFinalResult_ok_iff results chain L NN SN) as (z & s & E & _).
-  rewrite E. discriminate.
+  unfold rev_answer_ok. rewrite gen_checkRevocationResults_iff. split.
+  - intros [[L NN] (s & E)]. split; [exact L|].
+    destruct (gen_revocationFinalResult_ok_iff results chain L NN) as (z & s' & E' & I).
+    rewrite E in E'. injection E' as <- <-. now apply I.
+  - intros [L OK].
+    assert (NN : forallb res_nonnil results = true).
+    { clear L. induction results as [|p ps IH]; [reflexivity|]. cbn [forallb] in *.
+      apply andb_true_iff in OK. destruct OK as [O1 O2]. rewrite (IH O2), andb_true_r.
+      unfold res_ok in O1. unfold res_nonnil. destruct (ptr_val p); [reflexivity|discriminate]. }
+    split; [split; assumption|].
+    destruct (gen_revocationFinalResult_ok_iff results chain L NN) as (z & s' & E' & I).
+    exists s'. rewrite E'. apply I in OK. now subst z.
 Qed.
 
 End Rev.
